@@ -684,3 +684,198 @@ Lemma pl_obj_typed f t r2 :
   | LVal n r3 => obj_n (ubj_payload f t) (f + Z.to_nat (Z.min n 100001))%nat n r3 []
   end.
 Proof. reflexivity. Qed.
+
+(* ---------- one step of each loop ---------- *)
+Lemma uvalue_S f g m r : uvalue f (S g) (m :: r) =
+  if m =? mN then uvalue f g r else if is_value_marker m then ubj_payload f m r else RMalformed.
+Proof. reflexivity. Qed.
+
+Lemma arr_n_O pl n b acc : arr_n pl O n b acc = if n <=? 0 then RValue (CArr (rev acc)) b else RTruncated.
+Proof. reflexivity. Qed.
+Lemma arr_n_S pl g n b acc : arr_n pl (S g) n b acc =
+  if n <=? 0 then RValue (CArr (rev acc)) b else
+  match pl b with
+  | RValue v r' => arr_n pl g (n - 1) r' (v :: acc)
+  | e => e
+  end.
+Proof. reflexivity. Qed.
+
+Lemma obj_n_O pl n b acc : obj_n pl O n b acc = if n <=? 0 then RValue (CObj (rev acc)) b else RTruncated.
+Proof. reflexivity. Qed.
+Lemma obj_n_S pl g n b acc : obj_n pl (S g) n b acc =
+  if n <=? 0 then RValue (CObj (rev acc)) b else
+  match ukey b with
+  | inr e => e
+  | inl None => RMalformed
+  | inl (Some (k, r')) =>
+      match pl r' with
+      | RValue v r'' => obj_n pl g (n - 1) r'' ((k, v) :: acc)
+      | e => e
+      end
+  end.
+Proof. reflexivity. Qed.
+
+Lemma arr_plain_S val g h r acc : arr_plain val (S g) (h :: r) acc =
+  if h =? mArrE then RValue (CArr (rev acc)) r
+  else if h =? mN then arr_plain val g r acc
+  else match val (h :: r) with
+       | RValue v r'' => arr_plain val g r'' (v :: acc)
+       | e => e
+       end.
+Proof. reflexivity. Qed.
+
+Lemma obj_plain_S val g h r acc :
+  obj_plain val (S g) (h :: r) acc =
+  if h =? mObjE then RValue (CObj (rev acc)) r
+  else match ukey (h :: r) with
+       | inr e => e
+       | inl None => RMalformed
+       | inl (Some (k, r'')) =>
+           match val r'' with
+           | RValue v r3 => obj_plain val g r3 ((k, v) :: acc)
+           | e => e
+           end
+       end.
+Proof. reflexivity. Qed.
+
+Lemma value_marker_not m : is_value_marker m = true ->
+  (m =? mN) = false /\ (m =? mArrE) = false /\ (m =? mObjE) = false /\
+  (m =? mType) = false /\ (m =? mCount) = false.
+Proof.
+  unfold is_value_marker. cbn [existsb]. rewrite !orb_true_iff, !Z.eqb_eq. intro H.
+  repeat (destruct H as [->|H]; [repeat split; reflexivity|]). discriminate H.
+Qed.
+
+Lemma uvalue_good bs v f g rest : gooddec bs v ->
+  (length (bs ++ rest) < f)%nat -> (0 < g)%nat -> uvalue f g (bs ++ rest) = RValue v rest.
+Proof.
+  intros (m & p & -> & M & D) Hf Hg. destruct g as [|g]; [lia|].
+  cbn [app]. rewrite uvalue_S.
+  destruct (value_marker_not m M) as (N & _). rewrite N, M. apply D. exact Hf.
+Qed.
+
+Lemma gooddec_nonempty bs v : gooddec bs v -> (1 <= length bs)%nat.
+Proof. intros (m & p & -> & _). cbn [length]. lia. Qed.
+
+Lemma length_flat_map_ge {A} (fb : A -> bytes) l :
+  Forall (fun a => (1 <= length (fb a))%nat) l -> (length l <= length (flat_map fb l))%nat.
+Proof.
+  induction 1 as [|a l Ha Hl IH]; cbn [flat_map length]; [lia|]. rewrite app_length. lia.
+Qed.
+
+Lemma zlen_cons {A} (a : A) l : zlen (a :: l) = zlen l + 1.
+Proof. unfold zlen. cbn [length]. lia. Qed.
+
+(* ---------- counted loops ---------- *)
+Lemma arr_n_loop {A} pl (fb : A -> bytes) (fv : A -> cvalue) (f : nat) (l : list A) :
+  Forall (fun a => forall rest, (length (fb a ++ rest) < f)%nat -> pl (fb a ++ rest) = RValue (fv a) rest) l ->
+  forall g acc rest, (length l <= g)%nat -> (length (flat_map fb l ++ rest) < f)%nat ->
+  arr_n pl g (zlen l) (flat_map fb l ++ rest) acc = RValue (CArr (rev acc ++ map fv l)) rest.
+Proof.
+  induction 1 as [|a l Ha Hl IH]; intros g acc rest Hg Hf.
+  - cbn [flat_map map app]. rewrite app_nil_r. destruct g; reflexivity.
+  - destruct g as [|g]; [cbn [length] in Hg; lia|].
+    rewrite arr_n_S. pose proof (zlen_nonneg l) as Hl0. rewrite zlen_cons.
+    destruct (zlen l + 1 <=? 0) eqn:E; [lia|].
+    cbn [flat_map] in *. rewrite <- app_assoc in *.
+    rewrite Ha by exact Hf.
+    replace (zlen l + 1 - 1) with (zlen l) by lia.
+    rewrite IH.
+    + cbn [rev map]. rewrite <- app_assoc. reflexivity.
+    + cbn [length] in Hg. lia.
+    + rewrite app_length in Hf. lia.
+Qed.
+
+Lemma string_b_false k : string_b k false = len_b (zlen k) ++ k.
+Proof. reflexivity. Qed.
+
+Lemma ukey_string k x : zlen k < int_lim -> ukey (string_b k false ++ x) = inl (Some (k, x)).
+Proof.
+  intro Hk. rewrite string_b_false, <- app_assoc. unfold ukey.
+  destruct (len_b_dec (zlen k)) as (m & p & _ & _ & L); [pose proof (zlen_nonneg k); lia|].
+  rewrite L, take_app. reflexivity.
+Qed.
+
+Lemma string_b_head k x : zlen k < int_lim ->
+  exists h r, string_b k false ++ x = h :: r /\ (h =? mObjE) = false.
+Proof.
+  intro Hk. rewrite string_b_false.
+  destruct (len_b_dec (zlen k)) as (m & p & E & M & _); [pose proof (zlen_nonneg k); lia|].
+  rewrite E. cbn [app]. exists m. eexists. split; [reflexivity|].
+  apply len_marker_value in M. apply (value_marker_not m M).
+Qed.
+
+Lemma obj_n_loop {A} pl (fk fb : A -> bytes) (fv : A -> cvalue) (f : nat) (l : list A) :
+  Forall (fun a => zlen (fk a) < int_lim /\
+                   forall rest, (length (fb a ++ rest) < f)%nat -> pl (fb a ++ rest) = RValue (fv a) rest) l ->
+  forall g acc rest, (length l <= g)%nat ->
+  (length (flat_map (fun a => string_b (fk a) false ++ fb a) l ++ rest) < f)%nat ->
+  obj_n pl g (zlen l) (flat_map (fun a => string_b (fk a) false ++ fb a) l ++ rest) acc
+  = RValue (CObj (rev acc ++ map (fun a => (fk a, fv a)) l)) rest.
+Proof.
+  induction 1 as [|a l [Hk Ha] Hl IH]; intros g acc rest Hg Hf.
+  - cbn [flat_map map app]. rewrite app_nil_r. destruct g; reflexivity.
+  - destruct g as [|g]; [cbn [length] in Hg; lia|].
+    rewrite obj_n_S. pose proof (zlen_nonneg l) as Hl0. rewrite zlen_cons.
+    destruct (zlen l + 1 <=? 0) eqn:E; [lia|].
+    cbn [flat_map] in *. rewrite <- !app_assoc in *.
+    rewrite ukey_string by exact Hk.
+    rewrite Ha by (rewrite app_length in Hf; lia).
+    replace (zlen l + 1 - 1) with (zlen l) by lia.
+    rewrite IH.
+    + cbn [rev map]. rewrite <- app_assoc. reflexivity.
+    + cbn [length] in Hg. lia.
+    + rewrite !app_length in Hf. rewrite app_length. lia.
+Qed.
+
+(* ---------- plain loops ---------- *)
+Lemma arr_plain_loop {A} (fb : A -> bytes) (fv : A -> cvalue) (f : nat) (l : list A) :
+  Forall (fun a => gooddec (fb a) (fv a)) l ->
+  forall g acc rest,
+  (length (flat_map fb l ++ mArrE :: rest) < g)%nat ->
+  (length (flat_map fb l ++ mArrE :: rest) < f)%nat ->
+  arr_plain (uvalue f f) g (flat_map fb l ++ mArrE :: rest) acc = RValue (CArr (rev acc ++ map fv l)) rest.
+Proof.
+  induction 1 as [|a l Ha Hl IH]; intros g acc rest Hg Hf.
+  - cbn [flat_map map app] in *. rewrite app_nil_r.
+    destruct g as [|g]; [lia|]. rewrite arr_plain_S. reflexivity.
+  - cbn [flat_map] in *. rewrite <- app_assoc in *.
+    assert (V : uvalue f f (fb a ++ flat_map fb l ++ mArrE :: rest)
+                = RValue (fv a) (flat_map fb l ++ mArrE :: rest)).
+    { apply uvalue_good; [exact Ha | exact Hf | lia]. }
+    destruct Ha as (m & p & E & M & _). rewrite E in *. cbn [app] in *.
+    destruct g as [|g]; [lia|]. rewrite arr_plain_S.
+    destruct (value_marker_not m M) as (N1 & N2 & _). rewrite N1, N2, V.
+    rewrite IH.
+    + cbn [rev map]. rewrite <- app_assoc. reflexivity.
+    + cbn [length] in Hg. rewrite app_length in Hg. lia.
+    + cbn [length] in Hf. rewrite app_length in Hf. lia.
+Qed.
+
+Lemma obj_plain_loop {A} (fk fb : A -> bytes) (fv : A -> cvalue) (f : nat) (l : list A) :
+  Forall (fun a => zlen (fk a) < int_lim /\ gooddec (fb a) (fv a)) l ->
+  forall g acc rest,
+  (length (flat_map (fun a => string_b (fk a) false ++ fb a) l ++ mObjE :: rest) < g)%nat ->
+  (length (flat_map (fun a => string_b (fk a) false ++ fb a) l ++ mObjE :: rest) < f)%nat ->
+  obj_plain (uvalue f f) g (flat_map (fun a => string_b (fk a) false ++ fb a) l ++ mObjE :: rest) acc
+  = RValue (CObj (rev acc ++ map (fun a => (fk a, fv a)) l)) rest.
+Proof.
+  induction 1 as [|a l [Hk Ha] Hl IH]; intros g acc rest Hg Hf.
+  - cbn [flat_map map app] in *. rewrite app_nil_r.
+    destruct g as [|g]; [lia|]. rewrite obj_plain_S. reflexivity.
+  - cbn [flat_map] in *. rewrite <- !app_assoc in *.
+    assert (V : uvalue f f (fb a ++ flat_map (fun a => string_b (fk a) false ++ fb a) l ++ mObjE :: rest)
+                = RValue (fv a) (flat_map (fun a => string_b (fk a) false ++ fb a) l ++ mObjE :: rest)).
+    { apply uvalue_good; [exact Ha | rewrite app_length in Hf; lia | lia]. }
+    pose proof (ukey_string (fk a) (fb a ++ flat_map (fun a => string_b (fk a) false ++ fb a) l ++ mObjE :: rest) Hk) as K.
+    destruct (string_b_head (fk a) (fb a ++ flat_map (fun a => string_b (fk a) false ++ fb a) l ++ mObjE :: rest) Hk)
+      as (h & r & E & N).
+    destruct g as [|g]; [lia|].
+    assert (Hg' : (length (flat_map (fun a => string_b (fk a) false ++ fb a) l ++ mObjE :: rest) < g)%nat).
+    { pose proof (gooddec_nonempty _ _ Ha). rewrite !app_length in Hg. rewrite !app_length. lia. }
+    assert (Hf' : (length (flat_map (fun a => string_b (fk a) false ++ fb a) l ++ mObjE :: rest) < f)%nat).
+    { rewrite !app_length in Hf. rewrite !app_length. lia. }
+    rewrite E in *. rewrite obj_plain_S. rewrite N, K, V.
+    rewrite IH by assumption.
+    cbn [rev map]. rewrite <- app_assoc. reflexivity.
+Qed.
